@@ -118,13 +118,13 @@ HARNESSES = [
             'PREBLOCK: thread a first runs until it sleeps, then the threads interleave freely',
        bounds={'threads': 2, 'ops_per_thread': '<=2', 'capacity': 1, 'free_rounds': 'ROUNDS of the scenario (quick 2 / 1, thorough 2)', 'forced_rounds': 2, 'spin_unroll': 1}),
   dict(name='bq_fault_2t', unit='bqmf1_2', harness='h_cq.c', defines={'NT': 2, 'ITEMS_PER_PAGE': 1, 'BOUNDED': 1, 'REALCPP': 2, 'FAULTS': 1},
-       scenarios_quick=R(1, [dict(bsc(2, 0, 0, (BPOP, N), (PUSH, PUSH)), PREBLOCK=1, FAULT_AT=0)]),   # quick: the first push of the producer throws (concrete position); thorough: any position
+       scenarios_quick=R(1, [dict(bsc(2, 0, 0, (BPOP, N), (PUSH, PUSH)), PREBLOCK=1)]),
        scenarios_thorough=R(2, [dict(bsc(2, 0, 0, (BPOP, N), (PUSH, PUSH)), PREBLOCK=1), bsc(2, 0, 0, (BPOP, N), (PUSH, PUSH))]),
        cbmc=CB, timeout=1500, mem_gb=8, thorough_override={'timeout': 5400}, native_cflags=NCF,
        desc='concurrent_bounded_queue with a throwing element constructor (unit WITH exceptions, real concurrent_bounded_queue.cpp): a consumer sleeps in pop() with ticket t, the push that owns '
             'ticket t fails after taking it (invalid entry, no notify), the next push succeeds: its notify must release the sleeper (predicate_leq covers skipped tickets), the pop skips the invalid '
             'entry and returns the next item; nothing lost, history of the successful calls linearizable',
-       bounds={'threads': 2, 'ops_per_thread': '<=2', 'capacity': 2, 'faults': 'quick: the first constructor call throws; thorough: <=1 constructor exception at a solver-chosen call', 'free_rounds': 'quick 1 / thorough 2', 'forced_rounds': 2, 'spin_unroll': 1}),
+       bounds={'threads': 2, 'ops_per_thread': '<=2', 'capacity': 2, 'faults': '<=1 constructor exception at a solver-chosen call', 'free_rounds': 'quick 1 / thorough 2', 'forced_rounds': 2, 'spin_unroll': 1}),
   dict(name='cq_big_3t', unit='cq1_3', harness='h_cq.c', defines={'NT': 3, 'ITEMS_PER_PAGE': 1}, tiers=['thorough'],
        scenarios=R(2, THREE_T), cbmc=CB, timeout=3600, mem_gb=8, native_cflags=NCF,
        desc='concurrent_queue<136-byte struct>, 3 threads x 1 operation: ' + DESC,
